@@ -1,11 +1,16 @@
 package main
 
 import (
+	"bufio"
 	"bytes"
+	"context"
 	"errors"
 	"fmt"
 	"io"
+	"os"
 	"strings"
+	"syscall"
+	"testing/iotest"
 
 	"github.com/golang/protobuf/proto"
 	"github.com/golang/protobuf/ptypes/wrappers"
@@ -24,9 +29,24 @@ type ucall struct {
 }
 
 type scriptW struct {
-	accept int
-	fail   bool
-	calls  []ucall
+	accept  int
+	fail    bool
+	calls   []ucall
+	lastErr error
+}
+
+// the error values a failing underlying writer / reader hands out: the harness's own and the ones real files, pipes and
+// sockets return (some implement Temporary() / Timeout()); whatever it is, it is the caller's to see, unchanged
+var errPool = []error{errUnderlying, syscall.EINTR, io.ErrShortWrite, syscall.EAGAIN, os.ErrDeadlineExceeded, io.ErrClosedPipe,
+	io.EOF, context.DeadlineExceeded, io.ErrUnexpectedEOF, syscall.ENOSPC, io.ErrNoProgress}
+
+func inErrPool(err error) bool {
+	for _, e := range errPool {
+		if err == e {
+			return true
+		}
+	}
+	return false
 }
 
 func (s *scriptW) WriteAt(p []byte, off int64) (int, error) {
@@ -36,7 +56,10 @@ func (s *scriptW) WriteAt(p []byte, off int64) (int, error) {
 		n = len(p)
 	}
 	if s.fail || n < len(p) {
-		return n, errUnderlying
+		// (io.ErrShortWrite is left out here: the SectionWriter reports it itself for a write cut at the limit)
+		pool := append(append([]error{}, errPool[:2]...), errPool[3:]...)
+		s.lastErr = pool[(len(p)+n+int(off&7))%len(pool)]
+		return n, s.lastErr
 	}
 	return n, nil
 }
@@ -74,6 +97,7 @@ func runCalls(w io.Writer, uw *scriptW, calls string) string {
 	for ci, c := range strings.Split(calls, ";") {
 		f := strings.Split(c, ":")
 		uw.calls = nil
+		uw.lastErr = nil
 		var n int64
 		var err error
 		var buf []byte
@@ -95,7 +119,16 @@ func runCalls(w io.Writer, uw *scriptW, calls string) string {
 		default:
 			panic("harness: bad sw call " + c)
 		}
-		o := fmt.Sprintf("%d/%s", n, ioErrName(err))
+		name := ioErrName(err)
+		if err != nil && len(uw.calls) > 0 && uw.lastErr != nil {
+			// the underlying writer failed during this call: its very error value must come back
+			if err == uw.lastErr {
+				name = "Underlying"
+			} else if name == "Underlying" {
+				name = "Other(a different underlying error)"
+			}
+		}
+		o := fmt.Sprintf("%d/%s", n, name)
 		if len(uw.calls) > 1 {
 			o += "/MULTIPLE-UNDERLYING-CALLS"
 		} else if len(uw.calls) == 1 {
@@ -182,6 +215,15 @@ type capWriter struct {
 	mode int
 	buf  []byte
 	done bool
+	err  error // the error this writer reports (chosen from errPool at construction)
+}
+
+func newCapWriter(cap, mode int) *capWriter {
+	w := &capWriter{cap: cap, mode: mode, err: errWriter}
+	if cap >= 0 {
+		w.err = append([]error{errWriter}, errPool[1:]...)[(cap+mode)%len(errPool)]
+	}
+	return w
 }
 
 func (w *capWriter) Write(p []byte) (int, error) {
@@ -189,7 +231,7 @@ func (w *capWriter) Write(p []byte) (int, error) {
 		w.buf = append(w.buf, p...)
 		if !w.done && w.cap >= 0 && len(w.buf) >= w.cap {
 			w.done = true
-			return len(p), errWriter
+			return len(p), w.err
 		}
 		return len(p), nil
 	}
@@ -201,12 +243,17 @@ func (w *capWriter) Write(p []byte) (int, error) {
 		return len(p), nil
 	}
 	if w.mode == 1 {
-		return 0, errWriter
+		return 0, w.err
 	}
 	n := w.cap
 	w.buf = append(w.buf, p[:n]...)
 	w.cap = 0
-	return n, errWriter
+	if w.mode == 3 {
+		// fails once, part-way, then accepts everything (a writer that recovers): whoever got the error must not
+		// have written on
+		w.cap = -1
+	}
+	return n, w.err
 }
 
 var errInjected = errors.New("injected read error")
@@ -223,7 +270,7 @@ type scriptR struct {
 func (r *scriptR) Read(p []byte) (int, error) {
 	end := func() error {
 		if r.inj {
-			return errInjected
+			return append([]error{errInjected}, errPool[1:6]...)[len(r.data)%6]
 		}
 		return io.EOF
 	}
@@ -261,6 +308,45 @@ func (r *scriptR) Read(p []byte) (int, error) {
 	return n, nil
 }
 
+// mkReader: the input stream behind the reader types callers really pass.  chunk 0..6: the scripted reader itself;
+// 7..9: a bufio.Reader of 16 / 31 / 4096 bytes over it; 10..12: bytes.Reader, bytes.Buffer, strings.Reader (plain EOF
+// only); 13: io.LimitReader; 14: iotest.DataErrReader; 15: io.MultiReader of two halves; 16: iotest.HalfReader
+func mkReader(data []byte, chunk int, inj bool) io.Reader {
+	if chunk <= 6 {
+		return &scriptR{data: data, chunk: chunk, inj: inj}
+	}
+	under := func(c int) io.Reader { return &scriptR{data: data, chunk: c, inj: inj} }
+	switch chunk {
+	case 7:
+		return bufio.NewReaderSize(under(0), 16)
+	case 8:
+		return bufio.NewReaderSize(under(2), 31)
+	case 9:
+		return bufio.NewReader(under(1))
+	case 10, 11, 12:
+		if inj {
+			return under(0)
+		}
+		switch chunk {
+		case 10:
+			return bytes.NewReader(data)
+		case 11:
+			return bytes.NewBuffer(append([]byte(nil), data...))
+		}
+		return strings.NewReader(string(data))
+	case 13:
+		return io.LimitReader(under(2), int64(len(data))+7)
+	case 14:
+		return iotest.DataErrReader(under(0))
+	case 15:
+		h := len(data) / 2
+		return io.MultiReader(bytes.NewReader(data[:h]), &scriptR{data: data[h:], chunk: 2, inj: inj})
+	case 16:
+		return iotest.HalfReader(under(0))
+	}
+	panic("harness: bad reader kind")
+}
+
 func pbErrName(err error) string {
 	if err == nil {
 		return "nil"
@@ -277,6 +363,9 @@ func pbErrName(err error) string {
 		return "Injected"
 	case c == errWriter:
 		return "WErr"
+	case c == io.ErrShortWrite || c == io.ErrClosedPipe || c == io.ErrNoProgress || c == os.ErrDeadlineExceeded ||
+		c == syscall.EINTR || c == syscall.EAGAIN || c == syscall.ENOSPC || c == context.DeadlineExceeded:
+		return "Injected" // a reader's error from the pool of real-world values
 	case c.Error() == "bodysize is incorrect":
 		return "InvalidBodySize"
 	}
@@ -308,7 +397,45 @@ func unmarshalLoop(r io.Reader, maxCalls int) string {
 	return strings.Join(outs, ";")
 }
 
+// countW records the calls it receives without looking at the data
+type countW struct {
+	calls [][2]int64 // (off, len)
+}
+
+func (c *countW) WriteAt(p []byte, off int64) (int, error) {
+	c.calls = append(c.calls, [2]int64{off, int64(len(p))})
+	return len(p), nil
+}
+
 func init() {
+	// swbigprobe size: one Write and one WriteAt of `size` bytes (up to beyond 2^31; the buffer is never touched)
+	// through a SectionWriter wide enough to hold them: exactly one call of the underlying writer each, with the whole
+	// request at the right offset, and the full count back.  Output "ok" or the first discrepancy.
+	reg("swbigprobe", func(a []string) string {
+		size := int(mustI64(a[0]))
+		buf := make([]byte, size)
+		cw := &countW{}
+		sw := iohelper.NewSectionWriter(cw, 10, 1<<40)
+		n, err := sw.Write(buf)
+		if n != size || err != nil {
+			return fmt.Sprintf("Write of %d bytes returns (%d, %v)", size, n, err)
+		}
+		if len(cw.calls) != 1 || cw.calls[0] != [2]int64{10, int64(size)} {
+			return fmt.Sprintf("Write of %d bytes reached the underlying writer as %v", size, cw.calls)
+		}
+		cw.calls = nil
+		n, err = sw.WriteAt(buf, 77)
+		if n != size || err != nil {
+			return fmt.Sprintf("WriteAt of %d bytes returns (%d, %v)", size, n, err)
+		}
+		if len(cw.calls) != 1 || cw.calls[0] != [2]int64{87, int64(size)} {
+			return fmt.Sprintf("WriteAt of %d bytes reached the underlying writer as %v", size, cw.calls)
+		}
+		if pos, _ := sw.Seek(0, io.SeekCurrent); pos != int64(size) {
+			return fmt.Sprintf("cursor at %d after writing %d bytes", pos, size)
+		}
+		return "ok"
+	})
 	reg("sw", func(a []string) string {
 		uw := &scriptW{}
 		return runCalls(iohelper.NewSectionWriter(uw, mustI64(a[0]), mustI64(a[1])), uw, a[2])
@@ -332,9 +459,18 @@ func init() {
 		if err != nil || !bytes.Equal(enc, body) {
 			panic("harness: body mismatch for message kind " + a[0])
 		}
-		w := &capWriter{cap: int(mustI64(a[4])), mode: int(mustI64(a[5]))}
+		w := newCapWriter(int(mustI64(a[4])), int(mustI64(a[5])))
 		n, err := pbcmpl.Marshal(w, msg)
-		return fmt.Sprintf("%d,%s,%s,%d,%d", n, pbErrName(err), outBytes(w.buf), pbcmpl.Size(msg), pbcmpl.HeaderSize(msg))
+		name := pbErrName(err)
+		if err != nil {
+			// the writer's very error value must come back
+			if pkgerrors.Cause(err) == w.err {
+				name = "WErr"
+			} else if name == "WErr" || name == "Injected" {
+				name = "OtherWErr"
+			}
+		}
+		return fmt.Sprintf("%d,%s,%s,%d,%d", n, name, outBytes(w.buf), pbcmpl.Size(msg), pbcmpl.HeaderSize(msg))
 	})
 	reg("pbs", func(a []string) string {
 		stream := parseBytes(a[4])
@@ -342,12 +478,10 @@ func init() {
 		if a[0] != "-" {
 			nframes = len(strings.Split(a[0], ";"))
 		}
-		r := &scriptR{data: stream, chunk: int(mustI64(a[3])), inj: a[2] == "inj"}
-		return unmarshalLoop(r, nframes+1)
+		return unmarshalLoop(mkReader(stream, int(mustI64(a[3])), a[2] == "inj"), nframes+1)
 	})
 	reg("pbraw", func(a []string) string {
-		r := &scriptR{data: parseBytes(a[0]), chunk: int(mustI64(a[2])), inj: a[1] == "inj"}
-		return unmarshalLoop(r, int(mustI64(a[3])))
+		return unmarshalLoop(mkReader(parseBytes(a[0]), int(mustI64(a[2])), a[1] == "inj"), int(mustI64(a[3])))
 	})
 	reg("pbh", func(a []string) string {
 		r := &scriptR{data: parseBytes(a[0]), inj: a[1] == "inj"}
